@@ -111,6 +111,28 @@ CLAIMED["C02"] = {
     "design_ref": "DESIGN.md §5 C02",
 }
 
+CLAIMED["C05"] = {
+    "text": "Decides: (a) the interpreter's kind table for every arithmetic, comparison, bitwise and shift operator on the four numeric kinds "
+            "(read by abstract interpretation through the bin_op handler) equals the promotion table stated in the property (same kind keeps it, byte "
+            "yields, int yields to bigint, float wins, float with a bitwise/shift operator is an error, comparisons yield bool) -- 256 cells; (b) "
+            "the zero-divisor guards of / and % return an error for a zero divisor of every numeric kind (evaluated with a zero payload); (c) the "
+            "operator implementations use no wrapping/unchecked arithmetic and every profile that builds the CLI has overflow-checks on, so plain "
+            "x + y traps instead of wrapping; (d) every cast in the operator/ordering/equality implementations widens (u8 < i32 < i128 < f64). "
+            "Does not decide that the primitive operations compute the exact value (rustc/IEEE semantics are trusted) nor that a trap is "
+            "reported as an MScript error (C17).",
+    "technique": "static analysis: decision table by abstract interpretation of rustc MIR vs. the specified promotion table; cast/arith inventory; manifest read",
+    "design_ref": "DESIGN.md §5 C05",
+}
+CLAIMED["C06"] = {
+    "text": "Decides: (a) the constant folder's kind table (impl ops for &Number) equals the interpreter's for all 4x4 numeric kinds of the 10 "
+            "folded operators, including which cells are kind errors, and both dispatch each operator to the same trait; (b) Number::negate "
+            "preserves the variant like Primitive::negate (one known finding: bigint literals); (c) every integer arm of the folder goes through a "
+            "checked_* primitive and every float / and % is guarded by a zero test, so the folder rejects exactly on overflow / zero divisor -- the "
+            "run-time half of that equivalence is C05 (b),(c). Does not decide decimal-string <-> value round trips inside the folder.",
+    "technique": "static analysis: two decision tables extracted by abstract interpretation of rustc MIR and compared; primitive-call inventory; guarded-by",
+    "design_ref": "DESIGN.md §5 C06",
+}
+
 NOT_APPLICABLE = {
     "C01": "observable is program output; mechanism is relative jump offsets computed from Vec::len() arithmetic of recursively compiled blocks - deciding it needs symbolic execution of the generators (a different family); see DESIGN.md §5 C01",
     "C09": "a property of the compiler's *output* for all programs (jump targets, frame balance, operand-stack shape): needs symbolic block lengths or a verifier over emitted bytecode (translation validation), not an analysis of /repo's source; DESIGN.md §5 C09",
@@ -119,7 +141,7 @@ NOT_APPLICABLE = {
 }
 
 # no hook commits exist; the only commits made to /repo are unguarded "fix:" repairs of genuine defects (see known_findings.json)
-FIX_COMMITS = ["e2ae2a9", "cb2d1e0", "e7575e5", "7bc2f7d", "0af4d83", "e4a4c00", "58e025f", "686179e", "7296d9a", "fa4b68b"]
+FIX_COMMITS = ["e2ae2a9", "cb2d1e0", "e7575e5", "7bc2f7d", "0af4d83", "e4a4c00", "58e025f", "686179e", "7296d9a", "fa4b68b", "379557f", "4b30646"]
 
 PENDING = "check not built yet in this round (framework under construction); planned per DESIGN.md §5/§8"
 
